@@ -245,6 +245,28 @@ func probe() {
 	reqa([]string{"cert", "grpc", "tls", wire.EncList([]string{leaf + "|" + other, other})}, "", "-")
 	reqa([]string{"cert", "grpc", "tls", wire.EncList([]string{wire.Enc("nosan") + "|" + other})}, "", "-")
 	reqa([]string{"cert", "grpc", "other", wire.EncList([]string{leaf})}, "", "-")
+	// istiod's whole chain in one server: client certificate, Kubernetes JWT, XFCC - the first valid credential wins
+	{
+		xf := func(peer string) []string {
+			return []string{"xfcc", "grpc", wire.Enc("10.0.0.0/8"), wire.Enc(peer), wire.EncList([]string{hx}), parsedXFCCAll([]string{hx})}
+		}
+		certOK := []string{"cert", "grpc", "tls", wire.EncList([]string{leaf})}
+		certNo := []string{"cert", "grpc", "tls", wire.EncList([]string{wire.Enc("nosan")})}
+		chain := func(imp string, specs ...[]string) {
+			m := reqmSpec{specs: specs, req: reqSpec{csr: csrSpec{form: "ok", key: "ec256-a"}, ttl: 600, imp: "-", signer: "-", cluster: "c1"}}
+			if imp != "" {
+				m.req.imp = "s:" + wire.Enc(imp)
+			}
+			emit(m.line()...)
+		}
+		chain("", certOK, kube(good, "bearer"), xf("10.1.2.3:555"))
+		chain("", certNo, kube(good, "bearer"), xf("10.1.2.3:555"))
+		chain("", certNo, kube(bad, "bearer"), xf("10.1.2.3:555"))
+		chain("", certNo, kube(bad, "bearer"), xf("11.1.2.3:555"))
+		chain("spiffe://cluster.local/ns/a/sa/b", certNo, kube(good, "bearer"), xf("10.1.2.3:555")) // ambient flow behind a failing client-cert authenticator
+		chain("spiffe://cluster.local/ns/a/sa/b", certOK, kube(good, "bearer"))                      // the client certificate wins: no pod information, refused
+		chain("", kube(good, "bearer"), xf("host:80"))                                               // never reached: no crash
+	}
 	// client certificates over a real TLS handshake: roots are scoped by trust domain
 	tlsc := func(issuer, uri string, ints ...string) []string {
 		return []string{"tlscert", "grpc", wire.EncList([]string{"td1=R1", "td2=R2"}), leafSpec{issuer: issuer, sans: []string{"U:" + uri, "D:foo.example.com"}, when: "ok", eku: "both"}.tok(),
